@@ -1,6 +1,6 @@
 (* C13 — simplified numeric conditions are valid PDDL and mean the same as the originals.
    Level: translation validation.  sympy is an untrusted oracle; every output is validated by the checker of
-   Spec/Poly.v, which is proved sound here; the glue around sympy is modelled (Model/SymbolicGlue.v).
+   Spec/Poly.v, which is proved sound here; the glue around sympy is modelled (Model/SymbolicGlue.v) and proved.
    NOT proved: that the simplifier is right on inputs that were not run (that would be a theorem about sympy). *)
 From Coq Require Import List String ZArith QArith Qabs.
 From Verif Require Import Base.Result Spec.Poly Model.SymbolicGlue Proofs.C13_Poly Proofs.C13_Glue.
@@ -46,7 +46,8 @@ Proof. exact check_under_sound. Qed.
 
 (* ... or omitted by it: only if the assumptions imply it *)
 Theorem C13_omitted_only_if_implied : forall assumptions c,
-  implied (filter is_eq assumptions) c = true -> forall rho, sat_all rho assumptions -> sat rho c.
+  implied (filter is_eq assumptions) c = true ->
+  forall rho, sat_all rho assumptions -> cdefined rho c -> sat rho c.
 Proof. exact implied_under_sound. Qed.
 
 (* a bare expression (simplify_complex_numeric_expression) *)
@@ -61,7 +62,56 @@ Proof. exact check_expr_sound. Qed.
 Theorem C13_eround_zero : forall rho h o, eround 0 h o -> eval rho h == eval rho o.
 Proof. exact eround_zero_same. Qed.
 
+(* THE GLUE AROUND SYMPY (model of extract_atom / _convert_internal_expression_to_pddl / convert_expr_to_pddl):
+   whenever the printer returns for a sympy tree t - Add / Mul n-ary, integer powers, Float / Rational / Integer /
+   Symbol atoms; anything else raises - there is an expression h with
+   - h has exactly the value of the tree (sums, products, powers; a Float / Rational atom counts with its reference
+     value [href]: the exact value when its rounding is integral, else the 15-digit decimal sympy's str() shows and
+     format() rounds; a symbol counts as the function text it is printed as),
+   - what is printed is a structural rounding of h to d decimals (every constant within half a unit of the d-th
+     decimal, terms whose constant factor rounds to zero dropped, a product with such a factor dropped as a whole) and
+     uses only binary + * / (pe_expr succeeds); if nothing is left (None, printed "0") h itself vanishes up to rounding. *)
+Theorem C13_glue : forall d flag m t r,
+  conv d flag m t = Ok r ->
+  exists h : expr,
+    (wf_tree t = true -> forall rho, eval rho h == seval d m rho t) /\
+    match r with
+    | Some p => exists e, pe_expr p = Some e /\ eround (tol_of d) h e
+    | None => vanishing (tol_of d) h = true
+    end.
+Proof. exact glue_sound. Qed.
+
+Theorem C13_glue_text : forall d flag m t s,
+  convert_expr_to_pddl d flag m t = Ok s ->
+  exists r, conv d flag m t = Ok r /\ s = match r with Some p => show_pexpr p | None => "0"%string end.
+Proof. exact convert_text. Qed.
+
+(* every printed number is within half a unit of the d-th decimal of the atom's reference value *)
+Theorem C13_number_rounding : forall d v tv, Qabs (href d v tv - pnum_value (number_atom d v tv)) <= tol_of d.
+Proof. exact number_atom_close. Qed.
+
+(* transform_expression (after the repair of D21): the symbol table stays injective - every function text has its own
+   symbol, and a symbol is printed back as the one text it was made for.  (Before the repair the full-strength
+   statement was refuted by (f-x ?a) / (fx ?a).) *)
+Theorem C13_naming_injective : forall given found m,
+  transform_map given found = Ok m -> inj_map given -> inj_map m.
+Proof. exact transform_map_injective. Qed.
+
+(* ... and the naming loop always finds a free name (the model's Err EFuel is impossible) *)
+Theorem C13_naming_total : forall given found, exists m, transform_map given found = Ok m.
+Proof. exact transform_map_total. Qed.
+
+Theorem C13_symbol_printed_back : forall m s1 s2 t,
+  inj_map m -> lookup_sym m s1 = Some t -> lookup_sym m s2 = Some t -> s1 = s2.
+Proof. exact lookup_sym_injective. Qed.
+
 Print Assumptions C13_norm_sound.
+Print Assumptions C13_glue.
+Print Assumptions C13_glue_text.
+Print Assumptions C13_number_rounding.
+Print Assumptions C13_naming_injective.
+Print Assumptions C13_naming_total.
+Print Assumptions C13_symbol_printed_back.
 Print Assumptions C13_ratfun_sound.
 Print Assumptions C13_checker_sound.
 Print Assumptions C13_inequality_sound.
